@@ -355,6 +355,17 @@ Error BaseAssembler::embed_label_delta(const Label& label, const Label& base, si
     return report_error(make_error(Error::kInvalidOperandSize));
   }
 
+  // If both labels are bound within the same section the delta is known - it must be representable (either as a signed
+  // or as an unsigned value of `data_size` bytes), a truncated delta would be silently wrong data.
+  if (data_size < 8u && label_entry.is_bound() && base_entry.is_bound() && label_entry.section_id() == base_entry.section_id()) {
+    int64_t delta = int64_t(label_entry.offset() - base_entry.offset());
+    int64_t limit = int64_t(1) << (data_size * 8u);
+
+    if (ASMJIT_UNLIKELY(delta < -(limit >> 1) || delta >= limit)) {
+      return report_error(make_error(Error::kInvalidDisplacement));
+    }
+  }
+
   CodeWriter writer(this);
   ASMJIT_PROPAGATE(writer.ensure_space(this, data_size));
 
